@@ -8,5 +8,6 @@ CONSTANTS
   MaxFaults = 0
   EnPersistCall = TRUE
   FixPoisonAppend = TRUE
-INVARIANTS CrashRecoversAcked PowerLossKeepsDurable CrashKeepsBuffered SyncOrder MutualExclusion FailStop
+  ClearFlushes = TRUE
+INVARIANTS CrashRecoversAcked PowerLossKeepsDurable CrashKeepsBuffered SyncOrder MutualExclusion FailStop ClearDropsTablesOnlyWithRecord
 CHECK_DEADLOCK FALSE
